@@ -273,6 +273,14 @@ package drpcwire
 //@   loop 1 step [C09,C01.pending-kept]  !ok ==> forall i int :: 0 <= i && i < athead(len(r.curr)) ==> r.curr[i] == athead(r.curr[i])
 //@   site (*Class).Wrap assert [malformed]             pfStatus(r.curr) == 2
 //@   site (*Class).New assert [C09,C18,C13.error-justified] (!ok && pfStatus(r.curr) == 1 && len(r.curr) > rdM(r) + 31) || (ok && idLess(fr.ID, r.id)) || (ok && fr.ID == r.id && !idZero(pkt.ID) && fr.Kind != pkt.Kind) || (ok && len(pkt.Data) > rdM(r))
+//@   ghost entry rderr = nil
+//@   ghost after:(*Reader).read rderr = ret1
+//@   ghost entry pok = false
+//@   ghost after:ParseFrame pok = ret2
+//@   ghost entry perr = nil
+//@   ghost after:ParseFrame perr = ret3
+//@   site (*Reader).read assert [C01,C05.reads-only-when-incomplete] !pok && perr == nil && eventCount("call:ParseFrame") >= 1
+//@   check [C01,C05.error-source] err != nil ==> eventCount("call:(*Class).New") + eventCount("call:(*Class).Wrap") >= 1 || (eventCount("call:(*Reader).read") >= 1 && err == rderr)
 //@   ensures [ri]          err == nil ==> readerInv(r)
 //@   ensures [C01.noalias] err == nil ==> arr(pkt.Data) == 0 || (arr(pkt.Data) != arr(r.buf) && arr(pkt.Data) != arr(r.curr))
 //@   ensures [deliver]     err == nil ==> pkt.ID.Stream == r.id.Stream && pkt.ID.Message + 1 == r.id.Message
